@@ -115,6 +115,7 @@ func checkC05(ctx *Ctx, r *Report) {
 	c05SubstitutedContentRevisited(ctx, r)
 	c05EntryPointFollowsRemoval(ctx, r)
 	c05OpenAPIMappingNames(ctx, r)
+	c15ReferenceSiblings(ctx, r)
 }
 
 // ---------------------------------------------------------------------------
@@ -545,6 +546,7 @@ func c05UnconditionalRewrite(ctx *Ctx, r *Report, p passInfo, refFields []*types
 				}
 				r.Count("reference rewrites in renaming-all passes", 1)
 				conds := enclosingConds(parents, as)
+				pkgTested := false
 				// a preceding `if … { continue|return }` in the same block also makes it conditional
 				skipped := false
 				if blk, ok := parents[as].(*ast.BlockStmt); ok {
@@ -553,6 +555,10 @@ func c05UnconditionalRewrite(ctx *Ctx, r *Report, p passInfo, refFields []*types
 							break
 						}
 						if is, ok := st.(*ast.IfStmt); ok && len(is.Body.List) > 0 {
+							if c05ProcessedPackageTest(ctx, info, p.named, is.Cond) {
+								pkgTested = true
+								continue // leaves for references to packages whose objects are not renamed
+							}
 							switch last := is.Body.List[len(is.Body.List)-1].(type) {
 							case *ast.BranchStmt:
 								if last.Tok == token.CONTINUE || last.Tok == token.BREAK {
@@ -569,6 +575,11 @@ func c05UnconditionalRewrite(ctx *Ctx, r *Report, p passInfo, refFields []*types
 				}
 				okc := !skipped
 				for _, c := range conds {
+					// the reference is rewritten exactly when its target is renamed: its package is one of the processed schemas
+					if c05ProcessedPackageTest(ctx, info, p.named, c.stmt.Cond) {
+						pkgTested = true
+						continue
+					}
 					// the presence test of the hint that holds the mapping is structural, not a name condition
 					if call, ok := ast.Unparen(c.stmt.Cond).(*ast.CallExpr); ok {
 						if fn := callee(info, call); fn != nil && fn.Name() == "HasHint" {
@@ -589,6 +600,24 @@ func c05UnconditionalRewrite(ctx *Ctx, r *Report, p passInfo, refFields []*types
 				}
 				cons := ctx.FuncName(fobj) + " rewrites " + exprString(lu)
 				r.Check(okc, "effects/rewrite-unconditional", cons, as.Pos(), "rewritten on every path, like the object names", "objects are renamed unconditionally but this reference-bearing position is rewritten only under a condition: for inputs on the other side of the condition the reference no longer names the renamed object")
+				// the converse: only the objects of the processed schemas are renamed, so a position that can designate an
+				// object of any package (a reference, a constant reference, a mapping entry) is rewritten under a test
+				// of its package. The object's own SelfRef and stores of the unchanged name are not such positions.
+				if strings.Contains(exprString(lu), "SelfRef") {
+					continue
+				}
+				if ix, ok := as.Rhs[0].(*ast.Ident); ok && len(as.Rhs) == 1 && !strings.Contains(strings.ToLower(ix.Name), "prefix") {
+					continue // `newMapping[k] = typeName`: the unchanged name
+				}
+				if c, ok := ast.Unparen(as.Rhs[0]).(*ast.CallExpr); ok && len(as.Rhs) == 1 {
+					if fn := callee(info, c); fn != nil {
+						if sig, _ := fn.Type().(*types.Signature); sig != nil && sig.Recv() != nil && namedOf(sig.Recv().Type()) == p.named {
+							continue // delegated to a method of the pass, whose own stores are judged
+						}
+					}
+				}
+				r.Check(pkgTested, "effects/rewrite-only-renamed-packages", cons, as.Pos(), "rewritten only when the package of the designated object is one of the processed schemas",
+					"the pass renames the objects of the schemas it is given and rewrites this reference-bearing position whatever package it designates: a reference to an object of a package that is not processed (preserved external references, a library imported by name) is renamed although its target is not, and names nothing")
 			}
 			return true
 		})
@@ -1712,4 +1741,77 @@ func c05OpenAPIMappingNames(ctx *Ctx, r *Report) {
 	})
 	r.Count("stores into the discriminator mapping of the OpenAPI front-end", n)
 	r.Floor("stores into the discriminator mapping of the OpenAPI front-end", 1)
+}
+
+// c05ProcessedPackageTest: cond is `[!]recv.M(e)` where M is a method of the pass that tests membership of its argument
+// in a map field of the pass, and Process fills that field with the Package of every schema it is given — the set of
+// packages whose objects the pass renames. A reference is rewritten under that test exactly when its target is.
+func c05ProcessedPackageTest(ctx *Ctx, info *types.Info, pass *types.Named, cond ast.Expr) bool {
+	cond = ast.Unparen(cond)
+	if u, ok := cond.(*ast.UnaryExpr); ok && u.Op == token.NOT {
+		cond = ast.Unparen(u.X)
+	}
+	call, ok := cond.(*ast.CallExpr)
+	if !ok || len(call.Args) != 1 {
+		return false
+	}
+	fn := callee(info, call)
+	if fn == nil {
+		return false
+	}
+	sig, _ := fn.Type().(*types.Signature)
+	if sig == nil || sig.Recv() == nil || namedOf(sig.Recv().Type()) != pass {
+		return false
+	}
+	fd, p := ctx.DeclOf(fn)
+	if fd == nil || fd.Body == nil || fd.Type.Params.NumFields() != 1 || len(fd.Type.Params.List[0].Names) != 1 {
+		return false
+	}
+	pinfo := p.TypesInfo
+	param := pinfo.Defs[fd.Type.Params.List[0].Names[0]]
+	var field *types.Var
+	ast.Inspect(fd.Body, func(n ast.Node) bool {
+		if ix, ok := n.(*ast.IndexExpr); ok {
+			if id, ok := ast.Unparen(ix.Index).(*ast.Ident); ok && pinfo.Uses[id] == param {
+				if f := fieldOf(pinfo, ix.X); f != nil {
+					if _, isMap := f.Type().Underlying().(*types.Map); isMap {
+						field = f
+					}
+				}
+			}
+		}
+		return true
+	})
+	if field == nil {
+		return false
+	}
+	// Process fills the field from the schemas it is given, and nothing else stores into it
+	filled, otherStores := false, false
+	for _, m := range methodsOf(ctx, pass) {
+		mp := m
+		_, mpk := ctx.DeclOf(ctx.LookupMethod(ctx.RelPkg(pass.Obj().Pkg().Path()), pass.Obj().Name(), mp.Name.Name))
+		if mpk == nil {
+			continue
+		}
+		minfo := mpk.TypesInfo
+		ast.Inspect(mp.Body, func(n ast.Node) bool {
+			as, ok := n.(*ast.AssignStmt)
+			if !ok {
+				return true
+			}
+			for _, l := range as.Lhs {
+				ix, ok := ast.Unparen(l).(*ast.IndexExpr)
+				if !ok || fieldOf(minfo, ix.X) != field {
+					continue
+				}
+				if mp.Name.Name == "Process" && strings.HasSuffix(exprString(ix.Index), ".Package") {
+					filled = true
+				} else {
+					otherStores = true
+				}
+			}
+			return true
+		})
+	}
+	return filled && !otherStores
 }
